@@ -9,7 +9,7 @@ T4Sem derives from the written file.
 """
 import sys
 
-from .. import core
+from .. import core, pipeline
 from . import common_bool
 
 OWNER_KINDS = {'spurious', 'unowned', 'multi', 'wrongid', 'wrongprov', 'crash'}
@@ -31,6 +31,9 @@ def main():
                        lambda v, deck, feats: v['nowners'] >= 2 and ('union' in feats or 'compl' in feats
                                                                       or 'cellcompl' in feats),
                        clauses='owner')
+    sub = [nd[t] for t in sorted(nd)][::max(1, len(nd) // 250)]
+    pipeline.check_decks(chk, sub, lambda d, r: [[]], chk.seed)
+    chk.cov['traces_validated_against_impl'] += chk.extra.get('pipeline_traces', 0)
     chk.extra['rule'] = ('distinct = distinct abstract decks; non-trivial = the deck has a union or a complement '
                          'and at least two cells of non-zero importance own probe points (counted by TraceDeck.tla)')
     chk.extra['exhaustive'] = False
